@@ -481,6 +481,7 @@ func (ex *Exec) initIntrinsics() {
 	in["errors.Is"] = func(ex *Exec, fr *Frame, a []Value) Value { return ex.errorsIs(a[0].(IfaceV), a[1].(IfaceV)) }
 	in["errors.Unwrap"] = func(ex *Exec, fr *Frame, a []Value) Value { return ex.errorsUnwrap(a[0].(IfaceV)) }
 
+	ex.initReflect()
 	ex.initHarnessAPI()
 }
 
